@@ -247,20 +247,64 @@ func checkC06(c *Ctx) {
 		}
 	}
 
+	// ---- C06.8 covert_blocklist_public_addrs: an interface address reported as a network (*net.IPNet: address and the
+	// prefix of the directly connected subnet) goes onto the covert blocklist as that network
+	r.Rule("C06.8", "interface networks are blocklisted whole when covert_blocklist_public_addrs is set", 1)
+	if f := c.fn("C06.8", lib, "RegConfig", "ParseBlocklists"); f != nil {
+		n := 0
+		eachInstr(f, func(in ssa.Instruction) {
+			ta, ok := in.(*ssa.TypeAssert)
+			if !ok || !ta.CommaOk || typeShort(ta.AssertedType) != "*net.IPNet" || !strings.Contains(pathOf(ta.X), ".Addrs()") {
+				return
+			}
+			n++
+			vp := pathOf(ta) + "#0"
+			records := map[ssa.Instruction]bool{}
+			eachInstr(f, func(in2 ssa.Instruction) {
+				st, ok := in2.(*ssa.Store)
+				if !ok {
+					return
+				}
+				if o, fld, ok := fieldOwner(st.Addr); ok && o == "lib.RegConfig" && fld == "covertBlocklistSubnets" && pathOf(st.Val) == "append(c.covertBlocklistSubnets, ["+vp+"])" {
+					records[in2] = true
+				}
+			})
+			missEdges := edgesEstablishing(f, atomMatcher(Atom{pathOf(ta) + "#1", false}))
+			// the loop over the interface's addresses: the innermost range loop that contains the assertion
+			var header *ssa.BasicBlock
+			for _, b := range f.Blocks {
+				if b.Comment != "rangeindex.loop" || len(b.Instrs) == 0 {
+					continue
+				}
+				fwd, _ := reach(f, b.Instrs[0], isInstr(in), nil, nil)
+				back, _ := reach(f, in, isInstr(b.Instrs[0]), nil, nil)
+				if fwd && back && (header == nil || b.Index > header.Index) {
+					header = b
+				}
+			}
+			hit, w := reach(f, in, func(in2 ssa.Instruction) bool {
+				if _, isR := in2.(*ssa.Return); isR {
+					return true
+				}
+				return header != nil && in2 == header.Instrs[0]
+			}, inSet(records), missEdges)
+			if len(records) == 0 || hit {
+				r.Bad("C06.8", "ParseBlocklists: an interface network may not be blocklisted as reported", in.Pos(), fnName(f),
+					"an interface address that is reported as a network (address/prefix) does not reach c.covertBlocklistSubnets unchanged on every path: the directly connected subnet drops off the covert blocklist (only the station's own host address stays), so neighbours on the station's networks can be dialed", r.blockPath(f, w)...)
+			} else {
+				r.OK("C06.8", "ParseBlocklists: every interface network is appended to the covert blocklist as reported", in.Pos(), fmt.Sprintf("%d recording store(s), must-pass before the next address", len(records)))
+			}
+		})
+		if n == 0 {
+			r.Unk("C06.8", "ParseBlocklists: interface addresses", f.Pos(), fnName(f), "no type test for *net.IPNet on Interface.Addrs() found")
+		}
+	}
+
 	// ---- C06.7 the policy that is enforced is the policy that was configured (shared with C19.6)
 	checkPolicyListWriters(c, "C06.7")
 
 	// ---- C06.3
-	r.Rule("C06.3", "writers of DecoyRegistration.Covert", 3)
-	for _, f := range c.P.RepoFuncs() {
-		for _, st := range fieldStores(f, "lib.DecoyRegistration", "Covert") {
-			name := f.Name()
-			okW := (name == "NewRegistration" && freshRoot(st.Addr, f)) || name == "ingestRegistration" || onlyCalledFrom(f, "ingestRegistration", 2) ||
-				(name == "register" && strings.HasSuffix(pathOf(st.Val), ".Covert")) // adoption of the checked covert (C06.2b)
-			r.Check(okW, "C06.3", fnName(f)+": writes DecoyRegistration.Covert", st.Pos(), fnName(f), "reviewed writer",
-				"the covert address of a registration is written outside construction and the admission step: a checked address can be replaced after the check")
-		}
-	}
+	checkCovertWriters(c, "C06.3")
 
 	// ---- C06.4 dial sites
 	// ---- C06.5 the decision is a function of the input and the current policy only
@@ -574,4 +618,20 @@ func anyContainsHelper(h *ssa.Function) bool {
 		}
 	})
 	return okAll && nTrue > 0 && nFalse > 0
+}
+
+// checkCovertWriters: the covert of a registration is written at construction and by the admission step only (shared
+// by C06.3 and C07.10: a registration that "passes the covert policy" must keep the covert that passed).
+func checkCovertWriters(c *Ctx, rule string) {
+	r := c.R
+	r.Rule(rule, "writers of DecoyRegistration.Covert", 3)
+	for _, f := range c.P.RepoFuncs() {
+		for _, st := range fieldStores(f, "lib.DecoyRegistration", "Covert") {
+			name := f.Name()
+			okW := (name == "NewRegistration" && freshRoot(st.Addr, f)) || name == "ingestRegistration" || onlyCalledFrom(f, "ingestRegistration", 2) ||
+				(name == "register" && strings.HasSuffix(pathOf(st.Val), ".Covert")) // adoption of the checked covert (C06.2b)
+			r.Check(okW, rule, fnName(f)+": writes DecoyRegistration.Covert", st.Pos(), fnName(f), "reviewed writer",
+				"the covert address of a registration is written outside construction and the admission step: a checked address can be replaced after the check")
+		}
+	}
 }
